@@ -63,11 +63,12 @@ let vop_of = function
   | 14 -> Some (VConcatSelf (nat_of_int 0))
   | _ -> None
 
-let () =
-  register "kn" (fun a ->
-    let op = int_of_z (getI (List.nth a 1)) in
+let judge_kn op a =
     let r = getS (List.nth a (List.length a - 1)) in
     if r = "skip" || r = "unsupported" || r = "nothing" then { model = "unspecified"; spec = "unspecified"; dom = false }
+    else if String.length r >= 4 && String.sub r 0 4 = "trap" then
+      (* building, reading or evaluating a view over valid operands must not trap *)
+      { model = "a report (no trap)"; spec = "a report (no trap)"; dom = false }
     else begin
       match split_str "_|_" r with
       | [fa; fart; fk; frt; fnew; fold] ->
@@ -90,4 +91,10 @@ let () =
                { model = part_a ^ " | " ^ part_k pred ^ tail; spec = spec; dom = same && gammab ka ashape }
            | _ -> { model = spec; spec = spec; dom = false })
       | _ -> failwith "fields"
-    end)
+    end
+
+let () =
+  register "kn" (fun a -> judge_kn (int_of_z (getI (List.nth a 1))) a);
+  (* binary / ternary views over two operand kinds: not modelled in Kinds.v, judged by the soundness relation only *)
+  register "kb" (fun a -> judge_kn 1000 a);
+  register "kw" (fun a -> judge_kn 1001 a)
